@@ -29,22 +29,22 @@ CLAIMED = {
             "Bundled and generated files with 1..4 corrupted records (field deleted / swapped / boundary token / garbage / cut short / deep inside a multi-segment slider path / partial progress: an earlier field changed to another valid value and a later field broken) placed next to records of the same kind, plus noise and header-like lines and foreign section blocks spliced into sections; decoded through Probe<Beatmap|HitObjects|TimingPoints>; for up to 12 rejected lines per run the decode without that line must be bit-identical.",
             "Trusted: Debug fingerprint; the C05 router for mapping deliveries to file lines (sanity-checked per run). UTF-8 files only.", "§4 C06"),
     "C08": ("exploration", "deterministic simulation: seeded chunk/Interrupted schedules over a simulated BufRead device, self-differential against one-shot delivery; swept chunk sizes and BufReader capacities",
-            "Seeded search over delivery schedules (chunk sizes down to 1 byte, first chunk < 3 bytes, boundary-targeted splits, Interrupted bursts, real std BufReader of capacity 1..16 and random over a simulated device, Chain, from_str, from_path on a real temp file, Beatmap's own from_bytes / str::parse / from_path; file names with other or no extensions and a beatmap folder with a neighbouring storyboard and difficulty) plus from_path over a pipe (procfs), over a pipe whose writer pauses, and over a path that previously held other bytes of the same length and mtime, for bundled and generated files in all four encodings and all nine decoders, about a fifth with unusual byte content (doubled BOM, BOM-less UTF-16, storage faults, foreign magic prefix, lines > 64 KiB / > 1 MiB, record faults incl. edge white space of the non-ASCII kind, orphan records before the first header, content that spells the path of an existing file, version-line spellings as first line, tiny files, uncompleted byte-order marks in front of header-first files); an advisory lock held by a second handle during from_path; thorough tier: files of 33 and 65 MiB whose content comes last; every result must equal from_bytes on the same bytes. Plus a deterministic sweep of fixed chunk sizes / capacities. Evidence, not proof: schedules are sampled.",
+            "Seeded search over delivery schedules (chunk sizes down to 1 byte, first chunk < 3 bytes, boundary-targeted splits, Interrupted bursts, real std BufReader of capacity 1..16 and random over a simulated device, Chain, from_str, from_path on a real temp file, Beatmap's own from_bytes / str::parse / from_path; file names with other or no extensions and a beatmap folder with a neighbouring storyboard and difficulty) plus from_path over a pipe (procfs), over a pipe whose writer pauses, and over a path that previously held other bytes of the same length and mtime, for bundled and generated files in all four encodings and all nine decoders, about a fifth with unusual byte content (doubled BOM, BOM-less UTF-16, storage faults, foreign magic prefix, lines > 64 KiB / > 1 MiB, record faults incl. edge white space of the non-ASCII kind, orphan records before the first header, content that spells the path of an existing file, version-line spellings as first line, tiny files, uncompleted byte-order marks in front of header-first files); an advisory lock held by a second handle during from_path; thorough tier: files of 33 and 65 MiB whose content comes last; every result must equal from_bytes on the same bytes; a foreign decoder type that overrides should_skip_line must be handed the same history of lines under every delivery; rarely an Interrupted storm that lasts 0.7 s of real time; file names that are not valid UTF-8. Plus a deterministic sweep of fixed chunk sizes / capacities. Evidence, not proof: schedules are sampled.",
             "Trusted: std BufReader/Cursor/Chain, the Debug rendering used as fingerprint, the SimReader stub. A defect that alters one-shot and scheduled delivery identically is invisible to this oracle.", "§4 C08"),
     "C09": ("fault_enumeration", "deterministic simulation with fault injection: enumerated read/write fault offsets x error kinds through simulated reader/sink, plus seeded combinations",
-            "Every byte offset of every small bundled file (dense samples of the four large ones) x the property's five error kinds (plus one of fifteen further kinds, rotating with the offset) x {direct, under std BufReader}, one-shot and sticky, mixed with Interrupted and chunking; every output offset x {hard error, Ok(0)} x {direct, by-value std BufWriter}; flush failure of every kind incl. Interrupted, sticky or on the first flush only (Ok is accepted only if the last flush the sink saw succeeded); short writes and Interrupted-only sinks; every input of <= 2 bytes x every Interrupted subset of the first four device calls; two synthetic full-featured maps in the corpus so every kind of output line meets every fault offset, and one tricky-text map stored as UTF-8+BOM / UTF-16LE / UTF-16BE so every byte of CR/LF-byte code units, surrogate pairs and multi-byte sequences meets a read fault; seven real-OS probes (through a scratch symlink, never the device node itself; incl. a zero-length special file whose reads fail). Oracle: injected failure => Err of that kind whose payload is still the device's error object (directly or along the source chain), transient => unchanged outcome, sink bytes always a prefix of the clean encoding, nothing swallowed (including in Drop).",
+            "Every byte offset of every small bundled file (dense samples of the four large ones) x the property's five error kinds (plus one of fifteen further kinds, rotating with the offset) x {direct, under std BufReader}, one-shot and sticky, mixed with Interrupted and chunking; every output offset x {hard error, Ok(0)} x {direct, by-value std BufWriter}; flush failure of every kind incl. Interrupted, sticky or on the first flush only (Ok is accepted only if the last flush the sink saw succeeded); short writes and Interrupted-only sinks; every input of <= 2 bytes x every Interrupted subset of the first four device calls; two synthetic full-featured maps in the corpus so every kind of output line meets every fault offset, and one tricky-text map stored as UTF-8+BOM / UTF-16LE / UTF-16BE so every byte of CR/LF-byte code units, surrogate pairs and multi-byte sequences meets a read fault; seven real-OS probes (through a scratch symlink, never the device node itself; incl. a zero-length special file whose reads fail). Oracle: injected failure => Err of that kind whose payload is still the device's error object (directly or along the source chain), transient => unchanged outcome, sink bytes always a prefix of the clean encoding, nothing swallowed (including in Drop), and after a faulted encode the same map encodes again to the clean text.",
             "Trusted: std BufReader/BufWriter, the SimReader/SimWriter stubs. ErrorKind and reachability of the injected payload are compared. Offsets of the four large files are sampled.", "§4 C09"),
     "C10": ("exploration", "deterministic simulation over the storage-encoding knob with invalid-sequence / truncation injection: self-differential across encodings and against std's lossy conversion; exhaustive single-scalar sweep",
             "All Unicode scalar values as metadata content in byte-neighbour contexts, as the last character of an unterminated line, before a dangling byte, and cut at every byte inside the character at the end of a UTF-8 file, in the four encodings (exhaustive over single scalars, both tiers); all texts <= 4 over {NUL, o, [, LF, CR, e-acute, U+4E0A, U+0D0A}; every sequence of <= 5 UTF-16 code units over {high, low, highest high, lowest low, a, LF} in LE and BE (the surrogate pairing grammar, enumerated); whole lines made only of characters whose code units are CR/LF/NUL bytes; lines longer than 64 KiB in only some of the encodings; texts beginning with U+FEFF (BOM-marked encodings only); bursts of 64..300 invalid bytes in one line; block-straddle lines of 5000 multi-unit characters at 8 offsets; bundled and generated texts in four encodings under one random delivery schedule; storage with injected invalid UTF-8 (incl. CESU-8 pairs, overlong forms, beyond U+10FFFF), lone surrogates, odd tails and UTF-16 truncation (every truncation length of every small file's transcodings in the thorough tier) compared with decoding the std lossy conversion of the payload.",
             "Trusted: std from_utf8_lossy / decode_utf16 as lossy reference; Debug fingerprint. Exhaustive only over single scalars, not strings.", "§4 C10"),
     "C12": ("exploration", "seeded search over timing-point line histories with reorder/duplicate/drop perturbations against an executable legacy reference model (sequential core of simulation testing; weak fit, no I/O fault applies)",
-            "Every line sequence up to length 3 (quick) / 5 (thorough) over a 12-line alphabet x 4 modes, plus seeded histories (0..24 lines over the property's alphabet, optional fields omitted, comments) and the bundled maps' timing sections, each under reorder / duplicate / drop perturbations and [General] Mode switches or records of other sections arriving between lines; near-equal times and values (±ulp, ±epsilon), padded flags, meters beyond i32, surplus fields, out-of-range defaults, integer fields at the edge of every 8/16/32/64-bit width (signed, unsigned, padded), Mode values that are not a mode, format versions >= 5; driven through the line API, decode::<TimingPoints>, decode::<Beatmap> and decode::<HitObjects>. The four lists must equal the legacy model bit for bit, be strictly increasing and clamped.",
+            "Every line sequence up to length 3 (quick) / 5 (thorough) over a 12-line alphabet x 4 modes, plus seeded histories (0..24 lines over the property's alphabet, optional fields omitted, comments) and the bundled maps' timing sections, each under reorder / duplicate / drop perturbations and [General] Mode switches or records of other sections or header look-alikes arriving between lines; near-equal times and values (±ulp, ±epsilon), padded flags, meters beyond i32, surplus fields, out-of-range defaults, integer fields at the edge of every 8/16/32/64-bit width (signed, unsigned, padded), Mode values that are not a mode, format versions >= 5; driven through the line API, decode::<TimingPoints>, decode::<Beatmap> and decode::<HitObjects>. The four lists must equal the legacy model bit for bit, be strictly increasing and clamped.",
             "Trusted: the ~200-line legacy model (field grammar, grouping, precedence, collection). Decision power comes from the model, not from fault injection (stated in DESIGN.md §2).", "§4 C12"),
     "C13": ("exploration", "seeded interleaving of logical clients' add operations on one shared collection, checked after every step against a reference sorted-list model and linear-scan lookups (weak fit)",
             "Every add sequence up to length 3 (quick) / 4 (thorough) over {4 kinds x 4 times x 2 values}, plus seeded histories (<= 32 ops) built from 1-3 client scripts interleaved by the scheduler, with fractional / negative / repeated / near-equal / huge / infinite times, NaN and infinite values, out-of-range volumes; one history in ten has 40..140 operations; one in 150 is a bulk history of 60..700 (rarely ~4100..4300) adds with unique values (ascending, descending, shuffled, front inserts, re-adds at stored times); NaN-time adds as a hostile operation with a narrow oracle; values one ulp beside their pool value; histories that start on a collection produced by the decoder; the same lookups before and after bursts of 2^8 / 2^16+-1 / 2^17 adds; lists filled beyond 2^16 points; the public ControlPoint trait used directly (redundancy query alone, insert-or-replace without it). After every add: lists equal the reference model and are strictly increasing; lookups at stored times, midpoints, before the first and beyond the last equal a linear scan with the documented fall-backs.",
             "Trusted: the reference collection model; 'active at its time' read narrowly. -0.0 and NaN times excluded.", "§4 C13"),
     "C18": ("exploration", "deterministic simulation of operation histories over shared long-lived buffers and caches (H1 abandoned borrow, H2 polluted/over-grown buffers); self-differential against fresh buffers",
-            "Every sequence up to length 3 (quick) / 4 (thorough) of {owned, borrowed} computations over six fixed lists x two lengths, plus seeded histories (<= 24 ops) mixing owned / borrowed computations, SliderPath cache accessors, slider duration / end time with shared buffers, control-point and length mutations through the accessors and clear_curve, over pools including empty, single-point, degenerate identical-point, multi-segment and buffer-over-growing (> 100 point) lists, clone / clone_from between sliders, scripted fill-mutate-read triples, related lists (translated / mirrored / scaled copies), counter-wrap churn (one edit + up to 2^17 no-op mutable accesses between cache fill and read) thread hand-offs (operations on freshly spawned, joined threads), buffer clones and lookup histories (a warm owned curve answers idx_of_dist / position_at like a cold copy and like the borrowed view), whole Debug rendering of small curves equal to fresh; plus decoded maps where the decoder and the encoder are the clients of the shared buffers (cached curve == fresh, == same path recomputed after clear_curve), also after the map was edited through public fields (incl. its mode) and encoded with the caches kept. After every computing op the result must be bit-identical to Curve::new on fresh buffers for the current (mode, points, length).",
+            "Every sequence up to length 3 (quick) / 4 (thorough) of {owned, borrowed} computations over six fixed lists x two lengths, plus seeded histories (<= 24 ops) mixing owned / borrowed computations, SliderPath cache accessors, slider duration / end time with shared buffers, control-point and length mutations through the accessors and clear_curve, over pools including empty, single-point, degenerate identical-point, multi-segment and buffer-over-growing (> 100 point) lists, clone / clone_from between sliders, scripted fill-mutate-read triples, related lists (translated / mirrored / scaled copies), counter-wrap churn (one edit + up to 2^17 no-op mutable accesses between cache fill and read) thread hand-offs (operations on freshly spawned, joined threads), the buffer-less API used from a thread-local destructor during thread teardown, buffer clones and lookup histories (a warm owned curve answers idx_of_dist / position_at like a cold copy and like the borrowed view), whole Debug rendering of small curves equal to fresh; plus decoded maps where the decoder and the encoder are the clients of the shared buffers (cached curve == fresh, == same path recomputed after clear_curve), also after the map was edited through public fields (incl. its mode) and encoded with the caches kept. After every computing op the result must be bit-identical to Curve::new on fresh buffers for the current (mode, points, length).",
             "Self-differential: no geometric reference. Bit-exact comparison.", "§4 C18"),
     "C20": ("exploration", "deterministic simulation of iterator histories over one shared tick buffer (abandoned iterators, polluted buffer) checked against an eager reference event list and a fresh-buffer twin",
             "A grid (span counts 1..6 x 11 tick-distance ratios x 6 velocities x 5 lengths x 2 start times) on a polluted buffer, plus seeded histories of 1..8 ops {pollute, abandon after j events, run} with real-valued playable parameters, also scaled by powers of two down to 2^-220 and with tick distances down to 5e-324 where no tick fits. Plus the encoder as caller (control-point times it writes lie at map control-point times or inside an object's lifetime; velocity, node-sample and repeat-count edits before encoding; osu-vs-catch caller differential on node times; API-built maps with a distinct volume per slider node: after encode+decode the sample point active at each node's closed-form time carries that node's volume, and HitObjectSlider::duration() equals its closed form; a second encode after lengths were edited through the accessor; zero-length sliders; each node's volume still in force right before the next node). Each completed stream: the same through next / nth / skip / step_by / count / last with size_hint honoured, and through fold / for_each / collect / count / try_for_each / peekable after k calls of next(); structure exactly per the statement, first-tick existence decided exactly at the cut-off, closed-form times/progress within 1e-9 relative, chronological ticks, identical placement on every span, bit-identical to the stream from a fresh buffer, zero tick distance => no ticks but every repeat.",
